@@ -207,6 +207,11 @@ func (reader *H265Reader) NextNAL() (*NAL, error) {
 	reader.nalBuffer = nil
 	nal.parseHeader()
 
+	// An excluded SEI can only get here as the last unit of the stream.
+	if len(nal.Data) >= 2 && reader.shouldSkipNAL(nal.NalUnitType) {
+		return nil, io.EOF
+	}
+
 	return nal, nil
 }
 
